@@ -1,7 +1,7 @@
 (* Sem/Scope.v — model of how FORD resolves cross-references inside one program unit (property
    C07) and the independent Spec.  Definitions only; proofs are in Sem/ScopeProofs.v.
 
-   Mirrors (defects included), for one top-level unit (module, program, external procedure,
+   Mirrors (remaining defect included), for one top-level unit (module, program, external procedure,
    block data) and everything nested in it:
      ford/sourceform.py  FortranCodeUnit._cleanup / FortranModule._cleanup  -> own all_procs keys (s_procs)
                          FortranCodeUnit.correlate 1191-1207, 1256-1284, 1315-1331
@@ -14,11 +14,13 @@
      ford/fortran_project.py  find_used_modules (ancestor_module / parent_submodule)
                                                                  -> find_unit
 
-   A scope's three dictionaries all_types, all_absinterfaces (and all_vars, which no slot of this
-   model reads) are THE PARENT'Sc DICTIONARY OBJECTS; all_procs is a dictionary of its own that is
-   first filled with the scope's contained procedures and then updated WITH the parent's.  The
-   model keeps a store of tables addressed by table id so that this aliasing is explicit, and
-   processes the unit as the sequence of events of FORD's depth-first traversal:
+   Every scope has dictionaries of its own (since the fix of the two defects found here: a contained
+   procedure did not shadow a host procedure, local declarations leaked through shared dictionary
+   objects): each of all_procs, all_absinterfaces, all_types starts as a COPY of the parent's, the
+   scope's own declarations are written over it, and the names from USED modules are merged last.
+   The model keeps a store of tables addressed by table id (what is read from the parent is what
+   the parent's table holds when the child is entered) and processes the unit as the sequence of
+   events of FORD's depth-first traversal:
        Enter S : set up S's tables, merge its use-associated names, resolve the slots of its derived
                  types and generic interfaces
        Exit    : resolve the type / interface references of S's variables and dummy arguments
@@ -105,7 +107,7 @@ Inductive sdesc :=
   | SCtor (t : str)                      (* constructor *)
   | SModproc (g : str) (i : nat).        (* procedure of the i-th module procedure of a generic *)
 (* which dictionaries a lookup goes through: all_types; all_procs; all_procs then all_absinterfaces *)
-Inductive look := LType | LProc | LProcAbs.
+Inductive look := LType | LProc | LProcAbs | LAbs.   (* LAbs: all_absinterfaces alone (no slot uses it; Spec side) *)
 (* a reference to be resolved: where, which slot, how, which name *)
 Record req := { q_scope : list str; q_slot : sdesc; q_look : look; q_name : str }.
 (* a resolved (or not) reference: the entity found, None = the name stays a string *)
@@ -159,6 +161,7 @@ Definition model_resolver (ss : stores) (E : env) : resolver :=
                 | Some e => Some e
                 | None => assoc_get n (tab ss E CAbs)
                 end
+  | LAbs => assoc_get n (tab ss E CAbs)
   end.
 
 (* ------------------------------------------------------------------ traversal *)
@@ -187,18 +190,13 @@ Definition enter_scope (Sc : srec) (s : state) : state :=
   let ss := st_stores s in
   let n := st_next s in
   let parent := parent_env Sc (st_stack s) in
-  (* all_procs: a dictionary of its own; own contained procedures, then .update(parent.all_procs):
-     the parent's entries win; names from USED modules are merged last *)
-  let procs0 := update [] (own Sc (own_names Sc CProc)) in
-  let procs1 := match parent with Some E => update procs0 (tab ss E CProc) | None => procs0 end in
-  let procs2 := update procs1 (imports_of Sc CProc) in
-  (* all_absinterfaces / all_types: the parent's dictionary object when there is one; own
-     declarations are written into it, then the names from USED modules *)
-  let ia := match parent with Some E => e_abs E | None => n end in
-  let it := match parent with Some E => e_types E | None => n end in
-  let abs2 := update (update (st_get ia (sa ss)) (own Sc (own_names Sc CAbs))) (imports_of Sc CAbs) in
-  let types2 := update (update (st_get it (sy ss)) (own Sc (own_names Sc CType))) (imports_of Sc CType) in
-  let ss' := {| sp := st_set n procs2 (sp ss); sa := st_set ia abs2 (sa ss); sy := st_set it types2 (sy ss) |} in
+  (* every dictionary: {**parent's, **own declarations}, then .update(names from USED modules) *)
+  let mk := fun c => update (update (match parent with Some E => tab ss E c | None => [] end)
+                                    (own Sc (own_names Sc c))) (imports_of Sc c) in
+  let ia := n in
+  let it := n in
+  let ss' := {| sp := st_set n (mk CProc) (sp ss); sa := st_set ia (mk CAbs) (sa ss);
+                sy := st_set it (mk CType) (sy ss) |} in
   let E := {| e_scope := Sc; e_procs := n; e_abs := ia; e_types := it |} in
   {| st_stores := ss'; st_next := S n; st_stack := E :: st_stack s;
      st_out := st_out s ++ map (answer (model_resolver ss' E)) (enter_reqs Sc) |}.
@@ -250,16 +248,29 @@ Definition look_in (Sc : srec) (lk : look) (n : str) : option ent :=
   | LType => local_lookup Sc CType n
   | LProc => local_lookup Sc CProc n
   | LProcAbs => match local_lookup Sc CProc n with Some e => Some e | None => local_lookup Sc CAbs n end
+  | LAbs => local_lookup Sc CAbs n
   end.
 Definition spec_resolver (all : list srec) (p : list str) : resolver :=
   fun lk n => resolve_fuel (S (length p)) all p (fun Sc => look_in Sc lk n).
 Definition resolve_in (all : list srec) (p : list str) (c : cls) (n : str) : option ent :=
   spec_resolver all p (match c with CType => LType | _ => LProc end) n.
 
+(* FORD's reading of procedure(n): a visible procedure n, else a visible abstract interface n *)
+Definition procs_first (R : resolver) : resolver :=
+  fun lk n => match lk with
+              | LProcAbs => match R LProc n with Some e => Some e | None => R LAbs n end
+              | _ => R lk n
+              end.
+
 (* the Spec's answer for every slot of a unit *)
 Definition spec (evs : list event) : list res :=
   let all := scopes_of evs in
   flat_map (fun Sc => map (answer (spec_resolver all (s_path Sc))) (enter_reqs Sc ++ exit_reqs Sc)) all.
+
+(* the Spec with FORD's reading of procedure(n) (used to state what the model does in every case) *)
+Definition spec_procs_first (evs : list event) : list res :=
+  let all := scopes_of evs in
+  flat_map (fun Sc => map (answer (procs_first (spec_resolver all (s_path Sc)))) (enter_reqs Sc ++ exit_reqs Sc)) all.
 
 (* ------------------------------------------------------------------ well-formed input, regions *)
 (* events are well bracketed; a unit is entered on an empty stack, every other scope inside its
@@ -292,22 +303,24 @@ Fixpoint functional_b (l : list (str * ent)) : bool :=
   | [] => true
   | (n, e) :: l' => forallb (fun kv => negb (str_eqb (fst kv) n) || ent_eqb (snd kv) e) l' && functional_b l'
   end.
-(* an identifier denotes one entity in the whole unit: as a type; as a procedure or abstract interface *)
-Definition names_unique_per_root (evs : list event) : bool :=
+(* legality of the unit as far as this property needs it: in one scope a name obtained by use
+   association is not declared again, and is not obtained twice for different entities *)
+Definition scope_legal (Sc : srec) : bool :=
+  forallb (fun c => functional_b (imports_of Sc c)
+                    && forallb (fun n => negb (str_in n (map fst (imports_of Sc c)))) (own_names Sc c))
+          [CProc; CAbs; CType].
+Definition scopes_legal (evs : list event) : bool := forallb scope_legal (scopes_of evs).
+(* region of the remaining finding: procedure(n) where the innermost scope that knows n has it as
+   an abstract interface while an outer scope has a procedure n.  FORD looks through all_procs
+   (every visible procedure, at any depth) before all_absinterfaces. *)
+Definition procabs_ok (all : list srec) (p : list str) (n : str) : bool :=
+  opt_eqb ent_eqb (spec_resolver all p LProcAbs n)
+          (match spec_resolver all p LProc n with Some e => Some e | None => spec_resolver all p LAbs n end).
+Definition procabs_consistent (evs : list event) : bool :=
   let all := scopes_of evs in
-  functional_b (all_decls CType all) && functional_b (all_decls CAbs all ++ all_decls CProc all).
-Definition declared_b (all : list srec) (lk : look) (n : str) : bool :=
-  match lk with
-  | LType => str_in n (map fst (all_decls CType all))
-  | LProc => str_in n (map fst (all_decls CProc all))
-  | LProcAbs => str_in n (map fst (all_decls CProc all)) || str_in n (map fst (all_decls CAbs all))
-  end.
-(* every referenced name is visible from where it is referenced, or declared nowhere in the unit *)
-Definition refs_visible_or_undeclared (evs : list event) : bool :=
-  let all := scopes_of evs in
-  forallb (fun Sc => forallb (fun q => match spec_resolver all (s_path Sc) (q_look q) (q_name q) with
-                                       | Some _ => true
-                                       | None => negb (declared_b all (q_look q) (q_name q))
+  forallb (fun Sc => forallb (fun q => match q_look q with
+                                       | LProcAbs => procabs_ok all (s_path Sc) (q_name q)
+                                       | _ => true
                                        end) (enter_reqs Sc ++ exit_reqs Sc)) all.
 (* the name is not declared or use-associated anywhere in the unit, in any role *)
 Definition mentioned (evs : list event) (n : str) : bool :=
